@@ -126,6 +126,8 @@ def random_stream(r, thorough=False):
 
 
 class AuditProcFamily(Family):
+    race = True
+    race_cases = 40
     prop = "C15"
     harness_mode = ["auditproc"]
     driver_args = ["auditproc"]
